@@ -84,6 +84,9 @@ class Gen:
             else:
                 k = rng.choice([-1, 0, 1, 2, N - 1, N, N + 1, n_est, n_est + 1, max(1, n_est - 1), rng.randint(-2, 2 * N + 3)])
                 ops.append("f%d" % k)
+        # in every fifth history the arguments of finalize are numpy integers (op g<k>) instead of Python ints
+        if rng.random() < 0.2:
+            ops = ["g" + o[1:] if o[0] == "f" else o for o in ops]
         self.sched(comp, ps, N, keep, bram, bdisk, ops)
 
 
@@ -165,7 +168,24 @@ def generate(seed, tier):
     g.rev("disk", 8, 1, 0, COSTS[0], comp="stream.disk.forloop")
     g.rev("hrevolve", 7, 1, 1, COSTS[0], comp="stream.hrevolve.forloop")
     for i in range(k0, len(g.cases)):
-        g.cases[i] = re.sub(r" r(\d+):(\d+)", lambda m: " " + " ".join(["l1:%s" % m.group(2)] * int(m.group(1))), g.cases[i])
+        g.cases[i] = re.sub(r" r(\d+):(\d+)", lambda m: " " + " ".join(["%s1:%s" % ("L" if (i + j) % 2 == 0 else "l", m.group(2)) for j in range(int(m.group(1)))]), g.cases[i])
+    # small problems first, then larger ones of the same class, in ONE interpreter (runner: components ending in .seq): state kept at
+    # module level between schedules (memo tables that grow, caches keyed too coarsely) shows when a later, larger problem reuses it
+    for N, s_, kind in [(4, 2, "memo"), (6, 3, "memo"), (30, 8, "memo"), (256, 2, "memo"), (257, 3, "memo"), (300, 8, "memo"), (12, 4, "memo")]:
+        g.mixed(N, s_, "RAM" if N % 2 else "DISK", kind, comp="stream.mixed.seq")
+    for N, s_, kind in [(5, 2, "tab"), (40, 6, "tab"), (280, 5, "tab"), (9, 3, "tab")]:
+        g.mixed(N, s_, "DISK", kind, comp="stream.mixedtab.seq")
+    for N, ram, disk, tr in [(4, 1, 1, "max"), (20, 2, 2, "rev"), (300, 2, 3, "max"), (640, 3, 4, "rev"), (7, 1, 2, "max")]:
+        g.multistage(N, ram, disk, tr, comp="stream.multistage.seq")
+    for kind, N, r, d in [("revolve", 5, 2, 0), ("revolve", 260, 3, 0), ("disk", 6, 1, 0), ("disk", 270, 2, 0), ("hrevolve", 6, 1, 1), ("hrevolve", 150, 2, 2), ("periodic", 7, 1, 0), ("periodic", 280, 2, 0),
+                          ("disk", 4, 1, 0), ("hrevolve", 5, 1, 1)]:
+        g.rev(kind, N, r, d, COSTS[0], comp="stream." + kind + ".seq")
+    # very many adjoint calculations on one object (the classes that allow any number): each is an exact repeat of the first
+    MANY = 2600 if thorough else 1150
+    g.basic("mem", 2, MANY, comp="stream.basic.manypasses")
+    g.basic("disk0", 1, MANY, comp="stream.basic.manypasses")
+    g.basic("disk0", 3, MANY, comp="stream.basic.manypasses")
+    g.twolevel(5, 2, 1, "RAM", "max", MANY, comp="stream.twolevel.manypasses")
     # the same classes in an interpreter started with -O (assert statements compiled away): valid parameters only, since some
     # argument checks of the library are assert statements
     for kind in ("none", "mem", "disk0", "disk1"):
@@ -329,8 +349,48 @@ def generate(seed, tier):
         g.cases.append("I %s %s | %s" % (ident, " ".join(map(str, order)), " || ".join(subs)))
         for j, x in enumerate(subs):
             g.cases.append("S %s/%d %s" % (ident, j, x))
+    # ... and objects of the SAME class with different parameters (trajectory, storage, unit counts, costs, length) alive together:
+    # what one of them leaves behind at module or class level is most likely to be picked up by its own kind
+    def same_class(c, j=0, base=None):
+        N = rng.randint(2, 16)
+        if base is not None and rng.random() < 0.6:
+            N = max(2, base["N"] + rng.randint(-2, 2))       # near relatives: the same sub-problems come up in both
+        nn = ["n"] * rng.randint(3 * N, 9 * N)
+        if c == 0:
+            ram, disk = (base["ram"], base["disk"]) if base is not None and rng.random() < 0.6 else (rng.randint(0, 2), rng.randint(1, 4))
+            return "multi %d %d %d %s | %d 0 - - | %s" % (N, ram, disk, ["max", "rev"][(base["t"] + j) % 2] if base is not None else rng.choice(["max", "rev"]), N, " ".join(nn))
+        if c == 1:
+            return "mixed %d %d %s %s | %d 0 - - | %s" % (N, rng.randint(1, 5), rng.choice(["RAM", "DISK"]), rng.choice(["memo", "tab"]), N, " ".join(nn))
+        if c == 2:
+            P = rng.randint(1, 5)
+            return "two %d %d %s %s | %d 0 - - | %s f%d %s" % (P, rng.randint(0, 3), rng.choice(["RAM", "DISK"]), rng.choice(["max", "rev"]), N,
+                                                               " ".join(["n"] * (-(-N // P))), N, " ".join(nn))
+        if c == 3:
+            return "disk %d | %d 0 - - | %s f%d %s" % (rng.randint(0, 1), N, " ".join(["n"] * N), N, " ".join(nn))
+        kind = ["revolve", "disk", "periodic", "hrevolve"][c - 4]
+        co = rng.choice(COSTS)
+        return "rev %s %d %d %d %d %d %d %d | %d 0 - - | %s" % (kind, N, rng.randint(1, 3), rng.randint(0, 2), co[0], co[1], co[2], co[3], N, " ".join(nn))
+    id0 = 120 if thorough else 40
+    for i in range(320 if thorough else 120):
+        c = i % 8
+        k = rng.randint(2, 3)
+        base = dict(N=rng.randint(3, 16), ram=rng.randint(0, 2), disk=rng.randint(1, 4), t=rng.randint(0, 1))
+        subs = [same_class(c, j, base) for j in range(k)]
+        nops = [len(x.split("|")[2].split()) for x in subs]
+        order, left = [], list(nops)
+        while sum(left) > 0:
+            j = rng.choice([a for a in range(k) if left[a] > 0])
+            burst = min(left[j], rng.choice([1, 1, 2, 3, 8, 40]))
+            order += [j] * burst
+            left[j] -= burst
+        ident = "inter.objects:%d" % (id0 + i)
+        g.cases.append("I %s %s | %s" % (ident, " ".join(map(str, order)), " || ".join(subs)))
+        for j, x in enumerate(subs):
+            g.cases.append("S %s/%d %s" % (ident, j, x))
     for i in range(8 if thorough else 3):
         g.add("val.eq", "V pairs %d %d" % (rng.randint(0, 10 ** 6), 400))
+    # actions that are kept: thousands of pairwise different ones constructed first and compared afterwards; two runs collected and compared
+    g.add("val.eq", "V collect %d %d" % (rng.randint(0, 10 ** 6), 6000 if thorough else 2500))
     # directly constructed actions, model against implementation: repr, ==, len, iteration, membership, reading a repr back
     MAXS = 9223372036854775807
     def rint():
